@@ -31,6 +31,8 @@ def build_case(rng: random.Random) -> dict:
                            'textblock_forked']),
         'nested': rng.random() < 0.15,
     }
+    if case['via'] in ('to_list', 'to_str') and len(case['lines']) >= 2 and rng.random() < 0.06:
+        case['deep'] = rng.choice([17, 18, 24, 40])
     if case['via'] == 'textblock_given_once':
         case['repeat'] = max(case['repeat'], 2)
         case['copied'] = rng.choice([None, 'deepcopy', 'pickle'])
@@ -129,6 +131,18 @@ def eval_case(case: dict) -> dict:
         if case['via'] in ('to_list', 'to_str'):
             src = lines
             content = [lines[:1], lines[1:]] if case['nested'] and lines else list(lines)
+            if case.get('deep') and lines:
+                # an outline: every section list holds its sub-section list, 17-40 levels down
+                content = []
+                cur = content
+                for pos, line in enumerate(lines):
+                    cur.append(line)
+                    if pos < len(lines) - 1:
+                        for _ in range(max(1, case['deep'] // max(1, len(lines) - 1))):
+                            nxt = []
+                            cur.append(nxt)
+                            cur = nxt
+                cnt['contents_nested_17_levels_and_deeper'] = 1
             for _ in range(case['repeat']):
                 got = ind.to_list(content)
                 for mech, detail in judge_lines(case, src, got):
@@ -231,7 +245,8 @@ def main(tier: str) -> int:
                 'mode_none_spaces', 'mode_all_spaces', 'mode_first_spaces', 'mode_none_tab',
                 'mode_all_tab', 'mode_first_tab', 'width_from_overridden_module_default',
                 'lines_with_inner_line_boundaries', 'forked_copies_indented',
-                'blocks_deep_copied_between_indents', 'blocks_pickled_between_indents')
+                'blocks_deep_copied_between_indents', 'blocks_pickled_between_indents',
+                'contents_nested_17_levels_and_deeper')
     for _item, res in run.pmap(_worker, [(run.seed, i, per) for i in range(total // per)]):
         if 'harness_error' in res:
             run.mark_inconclusive('harness error: ' + res['harness_error'][-300:])
